@@ -82,7 +82,7 @@ def run(run):
     C.build_driver()
     h, d = C.Harness(), C.Driver()
     rng = run.rng
-    quick = run.tier == "quick"
+    quick = run.depth == "quick"
     stats = collections.Counter()
     mism = []
     try:
@@ -113,6 +113,9 @@ def run(run):
         for i in range(4 if quick else 40):
             g = G.Gen(random.Random(rng.random()), G.Opts(unique=False, classes=2, methods=3, stmts=5, depth=2))
             srcs.append(("generated-repeats", g.file("R")[0].encode("utf-8")))
+        odd = G.odd_places()
+        srcs.append(("odd-places", odd.encode("utf-8")))
+        srcs.append(("odd-places", odd.replace("\n", "\r\n").encode("utf-8")))
         android = []
         for root, _, files in os.walk(os.path.join(C.REPO, "test-src", "android")):
             for f in sorted(files):
